@@ -311,6 +311,7 @@ Record ka_case := mkKaCase {
   kc_echo : list N;                  (* request ids of the pongs the client sent, in order *)
   kc_disc_event : bool;              (* DisconnectedEventHandler fired *)
   kc_reconnect : bool;               (* a second ConnectRequest reached the broker *)
+  kc_req_ok : bool;                  (* the ordinary request issued at the end of the window succeeded (true if none was issued) *)
   kc_announced : N * N               (* PingInterval / PingTimeout in the first ConnectRequest *)
 }.
 
@@ -394,6 +395,9 @@ Definition ka_corr (c : ka_case) : bool :=
      it can have been written (= when the previous pong was sent); closing never happens before
      that moment + timeout - early;
    - echo: the pongs the client sent carry exactly the ids of the broker's pings, in order;
+   - inbound flood cases (more unconsumed inbound items than the client's queues hold while every
+     ping is answered at once) are alive cases: no close, no disconnected event, no reconnect, and
+     an ordinary request issued afterwards succeeds;
    - announced: whole seconds of the configured values (defaults for 0). *)
 Fixpoint answered_before_next (ptimes : list N) (pongs : list (option N)) : bool :=
   match ptimes, pongs with
@@ -426,8 +430,10 @@ Definition c15_ok (c : ka_case) : bool :=
               | Some f => (f <=? t + kc_early c) || (base + TO <=? t + kc_early c)   (* not before the link died *)
               | None =>
                   (base + TO <=? t + kc_early c)                 (* not before the timeout *)
-                  && match lastpong with                         (* the failing ping was not answered in time *)
-                     | Some p => base + TO <=? p + kc_early c
+                  && match lastpong with                         (* the failing ping was not answered in time:
+                                                                    neither counted from the earliest moment it can
+                                                                    have been written nor from its arrival at the broker *)
+                     | Some p => (base + TO <=? p + kc_early c) && (lastp + TO <=? p + kc_early c)
                      | None => true
                      end
               end
@@ -441,6 +447,7 @@ Definition c15_ok (c : ka_case) : bool :=
            && negb (kc_disc_event c) && negb (kc_reconnect c)
        end
     && list_beq _ N.eqb (kc_echo c) (kc_bpings c)
+    && kc_req_ok c
     && (fst (kc_announced c) =? (if I =? 0 then 10 else (I / 1000) mod two32))
     && (snd (kc_announced c) =? (if TO =? 0 then 1 else (TO / 1000) mod two32))
   else
